@@ -333,6 +333,36 @@ def _t_ternary_to_if(srcs):
         ast.fix_missing_locations(tree)
 
 
+def _t_private_module(srcs):
+    """the small graph helpers of sempler/utils.py (pa, ch, neighbors, adj, only_directed, only_undirected, skeleton, matrix_block) live in a new private
+    module sempler/_graph_helpers.py and are imported back into utils under their own names"""
+    import ast
+    import os
+    moved = ("pa", "ch", "neighbors", "adj", "only_directed", "only_undirected", "skeleton", "matrix_block")
+    up = [p_ for p_ in srcs if p_.endswith(os.path.join("sempler", "utils.py"))]
+    if not up:
+        return
+    tree = srcs[up[0]]
+    defs = [n for n in tree.body if isinstance(n, ast.FunctionDef) and n.name in moved]
+    names = [n.name for n in defs]
+    # only functions that use nothing of utils but numpy and each other
+    ok = []
+    for n in defs:
+        free = {x.id for x in ast.walk(n) if isinstance(x, ast.Name) and isinstance(x.ctx, ast.Load)}
+        local = {x.id for x in ast.walk(n) if isinstance(x, ast.Name) and isinstance(x.ctx, ast.Store)} | {a.arg for a in n.args.args}
+        import builtins
+        foreign = {x for x in free - local if not hasattr(builtins, x) and x not in ("np",) and x not in names}
+        if not foreign:
+            ok.append(n)
+    if not ok:
+        return
+    new_mod = ast.Module(body=[ast.Import([ast.alias("numpy", "np")])] + ok, type_ignores=[])
+    tree.body = [n for n in tree.body if n not in ok]
+    k = max([i for i, n in enumerate(tree.body) if isinstance(n, (ast.Import, ast.ImportFrom))] or [0])
+    tree.body.insert(k + 1, ast.ImportFrom("sempler._graph_helpers", [ast.alias(n.name, None) for n in ok], 0))
+    srcs[os.path.join(os.path.dirname(up[0]), "_graph_helpers.py")] = new_mod
+
+
 def _t_strip_docs_annotate(srcs):
     """docstrings removed, every parameter annotated with `object`, every function given a return annotation"""
     import ast
@@ -492,7 +522,7 @@ def _t_accept_lists(srcs):
                         n.body[k:k] = ast.parse("if not isinstance(%s, np.ndarray):\n    %s = np.array(%s)\n" % (a.arg, a.arg, a.arg)).body
 
 
-TREE_TRANSFORMS = {"@coerce_params": _t_coerce_params, "@accept_lists": _t_accept_lists, "@early_exit": _t_early_exit, "@numpy_alias": _t_numpy_alias, "@kwargs_calls": _t_kwargs_calls, "@strip_docs_annotate": _t_strip_docs_annotate, "@logging": _t_logging, "@traced": _t_traced, "@kwonly": _t_kwonly, "@extra_param": _t_extra_param, "@try_reraise": _t_try_reraise, "@np_functions": _t_np_functions, "@np_operators": _t_np_operators, "@swap_branches": _t_swap_branches, "@name_conditions": _t_name_conditions, "@ternary_to_if": _t_ternary_to_if,
+TREE_TRANSFORMS = {"@coerce_params": _t_coerce_params, "@accept_lists": _t_accept_lists, "@early_exit": _t_early_exit, "@numpy_alias": _t_numpy_alias, "@kwargs_calls": _t_kwargs_calls, "@strip_docs_annotate": _t_strip_docs_annotate, "@logging": _t_logging, "@traced": _t_traced, "@kwonly": _t_kwonly, "@extra_param": _t_extra_param, "@try_reraise": _t_try_reraise, "@np_functions": _t_np_functions, "@np_operators": _t_np_operators, "@private_module": _t_private_module, "@swap_branches": _t_swap_branches, "@name_conditions": _t_name_conditions, "@ternary_to_if": _t_ternary_to_if,
                    "@shim": _t_shim}
 
 
